@@ -72,6 +72,40 @@ def case_hash(case):
                        case["yerr"], case["xrange"]])
 
 
+def scenario_counts(c, dist):
+    """counts of the deliberate scenario classes (argument types and routes, repeated
+    measurements, parameter branches) for the evidence distribution"""
+    T = c.get("types")
+    if T:
+        dist["typed:grid={}".format("whole-numbers" if c.get("grid") == 1.0 else "quarters")] += 1
+        dist["typed:container:" + T["container"]] += 1
+        for key in ("x", "y"):
+            dist["typed:data:" + T[key]] += 1
+        for key in ("xerr", "yerr"):
+            if T.get(key):
+                dist["typed:{}:{}".format(key, T[key])] += 1
+                dist["typed:{}-route:{}".format(key, T[key + "_route"])] += 1
+                if T[key + "_route"] == "setter-late" and T.get("refit"):
+                    dist["typed:{}-written-after-a-first-fit-of-the-same-data".format(key)] += 1
+                if G._is_int_type(T[key]) and T[key + "_route"] in ("kw-on-marray", "kw-over-old",
+                                                                    "setter", "setter-late"):
+                    dist["typed:integer-typed-{}-written-by-the-error-setter".format(key)] += 1
+        if c.get("xrange"):
+            dist["typed:xrange:{}-of-{}".format(T["xrange_seq"], T["xrange"])] += 1
+        if c["model"] == "polynomial":
+            dist["typed:degrees:" + T["degrees"]] += 1
+        if c.get("parguess") is not None:
+            dist["typed:parguess:" + T["parguess"]] += 1
+    R = c.get("rep")
+    if R:
+        dist["repeated-measurements:y:" + R["y"]["kind"]] += 1
+        if "x" in R:
+            dist["repeated-measurements:x:" + R["x"]["kind"]] += 1
+        dist["repeated-measurements:" + R["how"]] += 1
+    if c.get("signs"):
+        dist["parameter-branch:{}:{}".format(c["model"], c["signs"])] += 1
+
+
 def fail(sig, what, case, **kw):
     d = {"signature": sig, "what": what, "input": short(case), "case": case}
     d.update(kw)
@@ -301,6 +335,7 @@ def run_c06(ctx, cases, ref=False):
             dist["offset-data:|x|/span=1e{}..".format(int(math.floor(math.log10(c["ratio"]))))] += 1
             dist["offset-data:" + ("position-is-a-parameter" if c["model"] in (
                 "gaussian", "custom:lpeak") else "user-model-in-(x-x0)")] += 1
+        scenario_counts(c, dist)
         if c["model"] in G.PRESET_POLY and c.get("parguess") is not None:
             dist["poly-with-parguess:" + c.get("guess_kind", "list")] += 1
             dist["poly-with-parguess:" + ("with-xerr" if c["xerr"] is not None else "no-xerr")] += 1
@@ -404,24 +439,34 @@ def judge_c07(case, o, r):
 
     # fit_function(x): scalars, list, array -- and the same again after the history of the case
     # (a returned value switched to Monte Carlo, the result drawn on a plot, ...)
-    forms = ["fit", "fit_list", "fit_array"] + (["fit_npscalar"] if "fit_npscalar" in o else [])
+    extra = ("fit_npscalar", "fit_typed", "fit_typedlist", "fit_array_f32", "fit_array_i64",
+             "fit_array_i32")
+    forms = ["fit", "fit_list", "fit_array"] + [k for k in extra if k in o]
     if "fit@after" in o:
-        forms += ["fit@after", "fit_list@after", "fit_array@after", "fit_npscalar@after"]
+        forms += ["fit@after", "fit_list@after", "fit_array@after"] + [
+            k + "@after" for k in extra if k + "@after" in o]
     hist = " after the history {}".format(case.get("hist")) if case.get("hist") else ""
     for form in forms:
         ok = True
         hsig = ":after-history" if (form.endswith("@after") or (
             case.get("hist") and case.get("hist_first"))) else ""
+        base, _, sfx_ = form.partition("@")
+        types = o.get(base + "_types" + ("@" + sfx_ if sfx_ else ""))
+        if types is None and case.get("hist_first"):
+            types = o.get(base + "_types@after")
         for i, x in enumerate(G.eval_points(case)):
             iv, ie = o[form][i]
             mv, me, mq = r["fit"][i]
+            ty = types[i] if types else "float"
+            sl = 256.0
             ok = cmp("c07:fit-function-value:" + t + hsig,
-                     "fit_function({!r}) [{}] is not the model at the returned parameters{}".format(
-                         x, form, hist if hsig else ""), iv, mv,
-                     "fit_function = model at the returned parameters", x=x)
+                     "fit_function({!r}) [{}, argument of type {}] is not the model at the returned "
+                     "parameters{}".format(x, form, ty, hist if hsig else ""), iv, mv,
+                     "fit_function = model at the returned parameters", x=x, slack=sl)
             ok = ok and cmp("c07:fit-function-error:" + t + hsig,
-                            "uncertainty of fit_function({!r}) [{}] is not sqrt(g^T Cov g){}".format(
-                                x, form, hist if hsig else ""), ie, me, "uncertainty band", x=x)
+                            "uncertainty of fit_function({!r}) [{}, argument of type {}] is not "
+                            "sqrt(g^T Cov g){}".format(x, form, ty, hist if hsig else ""), ie, me,
+                            "uncertainty band", x=x, slack=sl)
             if ok:
                 q, qb = fb(mq)
                 if math.isfinite(q) and qb <= 1e-6 * abs(q) + 1e-12 * yunit * yunit and not close(
@@ -535,6 +580,7 @@ def run_c07(ctx, cases, ref=False):
         dist["units:y*{:g}".format(u[1])] += 1
         if c.get("offset") is not None:
             dist["offset-data"] += 1
+        scenario_counts(c, dist)
         if c["model"] in G.PRESET_POLY and c.get("parguess") is not None:
             dist["poly-with-parguess"] += 1
         if c.get("hist"):
